@@ -22,7 +22,8 @@ PROBES = {"C09": ["ensemble", "pipeline", "multiplexer", "stacking", "online_ens
                   "skip_inverse_transform_tag", "update_propagation_checked",
                   "final_forecaster_representation_checked", "holdout_checked",
                   "members_are_clones_checked", "parallel_member_fit", "update_params_false",
-                  "reconfigured_and_refitted"]}
+                  "reconfigured_and_refitted", "multiplexer_intervals_checked",
+                  "weights_from_out_of_sample_forecasts_checked"]}
 FAULT_KINDS = {"C09": ["schedule_ooo", "schedule_interleave", "overlap_batch", "pickle_roundtrip"]}
 RULE = {"C09": (
     "seeded composition (ensemble/pipeline/multiplexer/stacking over spy-wrapped real forecasters "
@@ -57,9 +58,21 @@ def generate(prop, rng, tier):
         # OnlineEnsembleForecaster without a weighting algorithm: uniform weights
         spec = {"kind": "online", "members": [C.gen_leaf(rng, allow_slow=False) for _ in range(rng.randint(2, 3))],
                 "aggfunc": "mean", "n_jobs": rng.choice([None, 2])}
+        if rng.random() < 0.6:
+            # with a weighting algorithm (non-negative least squares on the members' forecasts
+            # of each new batch, made BEFORE the members see that batch)
+            simple = [{"kind": "naive", "strategy": "last", "sp": 1, "window_length": None},
+                      {"kind": "naive", "strategy": "mean", "sp": 1, "window_length": rng.choice([3, 5])},
+                      {"kind": "trend", "degree": 1, "with_intercept": True},
+                      {"kind": "naive", "strategy": "drift", "sp": 1, "window_length": None}]
+            spec["members"] = rng.sample(simple, rng.randint(2, 3))
+            spec["algo"] = "nnls"
     elif kind == "mux":
         ms = [member() for _ in range(rng.randint(2, 3))]
         spec = {"kind": "mux", "members": ms, "selected": rng.randrange(len(ms))}
+        if rng.random() < 0.3:   # a selected member that offers prediction intervals
+            ms[spec["selected"]] = {"kind": "theta", "sp": rng.choice([1, 2]), "deseasonalize": rng.random() < 0.6}
+        spec["alpha"] = rng.choice([0.05, 0.1, 0.2, 0.5])
     elif kind == "stack":
         spec = {"kind": "stack", "members": [C.gen_leaf(rng, allow_slow=False) for _ in range(rng.randint(2, 3))],
                 "n_jobs": rng.choice([None, None, 2, 3])}
@@ -117,9 +130,13 @@ def build_spied(spec):
                                   n_jobs=spec.get("n_jobs"), aggfunc=spec["aggfunc"])
     if k == "online":
         from sktime.forecasting.online_learning import OnlineEnsembleForecaster
+        algo = None
+        if spec.get("algo") == "nnls":
+            from sktime.forecasting.online_learning import NNLSEnsemble
+            algo = NNLSEnsemble(n_estimators=len(spec["members"]))
         return OnlineEnsembleForecaster([("m%d" % i, SF(C.build(m), tag="m%d" % i))
                                          for i, m in enumerate(spec["members"])],
-                                        n_jobs=spec.get("n_jobs"))
+                                        ensemble_algorithm=algo, n_jobs=spec.get("n_jobs"))
     if k == "mux":
         return MultiplexForecaster([("m%d" % i, SF(C.build(m), tag="m%d" % i))
                                     for i, m in enumerate(spec["members"])],
@@ -262,6 +279,27 @@ def execute(prop, scen):
             updated += 1
             res.ops += 1
             res.states.add(short_hash([kind, updated, h["up"]]))
+        # ---- a multiplexer hands every argument of predict on to its selected member
+        if kind == "mux" and not res.violations and not scen["fh_at_fit"]:
+            a_ = spec.get("alpha", 0.05)
+            with peers.paused(), sched.scenario_schedule(sched.Scheduler("fifo", 0)):
+                try:
+                    q = ref.members[spec["selected"]].predict(steps, return_pred_int=True, alpha=a_)
+                except Exception:
+                    q = None
+            if q is not None:
+                ok, p = run("predict", lambda: comp.predict(steps, return_pred_int=True, alpha=a_))
+                if ok:
+                    res.probe("multiplexer_intervals_checked")
+                    same = isinstance(p, tuple) and len(p) == 2 and C.same_series(p[0], q[0]) and \
+                        np.asarray(p[1], float).shape == np.asarray(q[1], float).shape and \
+                        np.allclose(np.asarray(p[1], float), np.asarray(q[1], float), equal_nan=True)
+                    if not same:
+                        v("differs_from_composition", "predict(return_pred_int=True, alpha=%s) of the "
+                          "multiplexer gives intervals %s, its selected member gives %s" % (
+                              a_, np.round(np.asarray(p[1], float)[:2], 4).tolist() if isinstance(p, tuple)
+                              else type(p).__name__, np.round(np.asarray(q[1], float)[:2], 4).tolist()),
+                          composite="mux", what="intervals")
         # ---- the same object re-configured and fitted again (set_params then fit)
         if kind in ("mux", "ensemble") and scen.get("refit_other") and not res.violations:  # (not "online")
             y1 = y.iloc[:pos]
@@ -329,6 +367,10 @@ class Reference:
                 if k == "mux" and i != self.spec["selected"]:
                     continue
                 m.fit(y, fh=fh)
+            self.algo = None
+            if self.spec.get("algo") == "nnls":
+                from sktime.forecasting.online_learning import NNLSEnsemble
+                self.algo = NNLSEnsemble(n_estimators=len(self.members))
         elif k == "ttf":
             self.trs = [C.build_transformer(t) for t in self.spec["transformers"]]
             z = y
@@ -353,7 +395,7 @@ class Reference:
             self.members = [C.build(m).fit(y, fh=self.steps) for m in self.spec["members"]]
 
     def member_preds(self):
-        fh = None if self.fh_fit is not None else self.steps
+        fh = None if self.fh_fit is not None and not self.spec.get("algo") else self.steps
         return [m.predict(fh) for m in self.members]
 
     def predict(self):
@@ -362,6 +404,8 @@ class Reference:
         if k == "ensemble":
             P = pd.concat(self.member_preds(), axis=1)
             self.last_member_preds = P
+            if getattr(self, "algo", None) is not None:
+                return (P * np.asarray(self.algo.weights, float)).sum(axis=1)
             return getattr(P, self.spec["aggfunc"])(axis=1)
         if k == "mux":
             return self.members[self.spec["selected"]].predict(fh)
@@ -379,6 +423,11 @@ class Reference:
     def update(self, batch, up):
         k = self.kind
         if k in ("ensemble", "stack"):
+            if getattr(self, "algo", None) is not None and len(batch) >= 1:
+                # weights from the members' forecasts of the batch, made before they see it
+                steps_ = list(range(1, len(batch) + 1))
+                P = np.column_stack([np.asarray(m.predict(steps_).values, float) for m in self.members])
+                self.algo.update(P.T, np.asarray(batch.values, float))
             for m in self.members:
                 m.update(batch, update_params=up)
         elif k == "mux":
@@ -511,7 +560,10 @@ def check_predict(v, res, spec, log, p, q, ref, updated):
                 return
             outs.append(pr[0]["out"])
         P = pd.DataFrame(np.column_stack(outs))
-        agg = getattr(P, spec["aggfunc"])(axis=1).values
+        if spec.get("algo"):
+            agg = (P * np.asarray(ref.algo.weights, float)).sum(axis=1).values
+        else:
+            agg = getattr(P, spec["aggfunc"])(axis=1).values
         if not C.same_values(agg, p.values):
             v("not_the_aggregate", "ensemble forecast %s is not the %s of its members' forecasts %s"
               % (C.fmt(p), spec["aggfunc"], np.round(agg[:4], 6).tolist()), aggfunc=spec["aggfunc"])
@@ -548,6 +600,14 @@ def check_update_dataflow(v, res, spec, log, batch, up, ref):
                 v("update_not_propagated", "member m%d was updated with different data or "
                   "update_params than the composite" % i)
                 return
+            if spec.get("algo") and len(batch) >= 1:
+                seq = [r["m"] for r in _by_tag(log, "m%d" % i) if r["m"] in ("predict", "update")]
+                res.probe("weights_from_out_of_sample_forecasts_checked")
+                if seq[:2] != ["predict", "update"]:
+                    v("member_saw_batch_before_forecasting_it", "online ensemble update: member m%d "
+                      "received %s; its forecasts of the new batch (used to learn the weights) must "
+                      "be made before it is updated with that batch" % (i, seq[:3]))
+                    return
         res.probe("update_propagation_checked")
         return
     for i, ts in enumerate(spec["transformers"]):
